@@ -545,6 +545,10 @@ class CFG:
                     ok = False
             if found and ok:
                 return toks
+            # local that only ever holds None or an exception bound by a handler of this function (`last = ex`)
+            toks = self._var_of_caught(e.id)
+            if toks is not None:
+                return toks
             c = self.exc.canon(e)
             if not c.startswith('?') and self.exc.bases(c):
                 return {('exact', c)}
@@ -558,6 +562,34 @@ class CFG:
         if not c.startswith('?') and self.exc.bases(c):
             return {('exact', c)}
         return {('sub', 'Exception')}
+
+    def _var_of_caught(self, vname):
+        toks = set()
+        found = False
+        for sub in ast.walk(self.fnode):
+            if isinstance(sub, ast.Name) and sub.id == vname and isinstance(sub.ctx, ast.Store):
+                p = getattr(sub, '_parent', None)
+                if not (isinstance(p, ast.Assign) and len(p.targets) == 1):
+                    return None
+                v = p.value
+                if isinstance(v, ast.Constant) and v.value is None:
+                    continue
+                if not isinstance(v, ast.Name):
+                    return None
+                h = None
+                cur = getattr(p, '_parent', None)
+                while cur is not None and cur is not self.fnode:
+                    if isinstance(cur, ast.ExceptHandler) and cur.name == v.id:
+                        h = cur
+                        break
+                    cur = getattr(cur, '_parent', None)
+                if h is None:
+                    return None
+                found = True
+                for (hid, dup), hn in self._handler_nodes.items():
+                    if hid == id(h):
+                        toks |= set(hn.attrs['incoming'])
+        return toks if found else None
 
     def _list_of_caught(self, lname, n):
         toks = set()
